@@ -35,7 +35,9 @@ func init() {
 			"mutations of the corpus), css (style attributes from a CSS grammar: comments, strings, url(), at-rules, escapes, ';' inside " +
 			"strings/parens/blocks, unterminated constructs, tokenizer-differential code points), feedback (per-case mutation loop that keeps " +
 			"inputs whose sanitized output shows a new feature set), text (TextToHTML inputs with URLs, brackets, quotes, entities, all newline " +
-			"forms), e2e (MIME messages through Manager.Deliver and GET /serve/mailbox/{name}/{id}). Oracle: DOM of the output under html.Parse and " +
+			"forms), e2e (MIME messages through Manager.Deliver and GET /serve/mailbox/{name}/{id}; one in eight is multipart/related or mixed with an " +
+			"HTML body referring by cid: to sibling parts whose file names (quoted-pair, RFC 2231 incl. continuations, RFC 2047, Content-Type name), " +
+			"Content-IDs and content types carry quotes, angle brackets, on*= text and whole XSS vectors). Oracle: DOM of the output under html.Parse and " +
 			"html.ParseFragment(<body>) has no script/style/iframe/frame/frameset/object/form element, no on* attribute, no javascript: URL " +
 			"attribute, and every style declaration found by an independent CSS Syntax 3 splitter has an allow-listed property; sanitize.HTML " +
 			"returns no error. A case is non-trivial and distinct by (sorted deciding classes present in the DOM of the INPUT, allow-listed " +
@@ -57,6 +59,8 @@ func init() {
 				"out_style_attrs": 500, "out_style_decls_allowlisted": 500, "text_anchors": 2000, "text_breaks": 2000,
 				"text_inputs_with_specials": 2000, "feedback_pool_additions": 50, "directed_vectors": int64(len(xssCorpus)),
 				"distinct_nontrivial": 300,
+				// added after seeded change C18-13: messages whose HTML refers to sibling parts with markup in their metadata
+				"e2e_shape_related": 30, "e2e_rel_html_has_cid_ref": 30, "e2e_rel_parsed_name_with_markup": 30, "e2e_rel_quote_name_referenced": 20,
 			}
 			if tier == "thorough" {
 				for k, v := range m {
